@@ -359,3 +359,19 @@ EXTRA = {
            '_waiting_for_load only after their load task finished (join / worker exit / assert '
            'key in _loaded dominates). Generic exact dataflow facts on the anchor files: no result of a call is bound to a local that reaches no read (VALUE-dead, reaching definitions on the CFG); every self.X read names an attribute bound in the class family (ATTR-defined). preload never queues a second load for a key in flight (TS-no-duplicate-load); Worker.__exit__ joins the worker thread on every normal path after exit.set() (SYNC-exit-join). emit loops iterate over a copy of the listeners; the decorator form of connect forwards all parameters; sub-containers are registered with their parent; Hdf5Storage.save removes an existing key first.',
 }
+
+# round 6 (one independently seeded change per property) and the leads of its agents
+EXTRA6 = {
+    'C01': 'inner() re-orders axes_a by argsort(axes_b) when it normalises axes_b to range(rank) (AXES-parallel-sort).',
+    'C05': 'Eigenvalues and eigenvector blocks of eig/eigh/eigvals are stored at the ROW sector of the diagonal block, sliced on a.legs[0] (FACT-eig-slot).',
+    'C09': 'Parallel per-site containers (tensors, singular values, sites, forms) are re-ordered with index arrays that agree modulo L (REINDEX-congruent).',
+    'C10': 'The merge key of MultiCouplingTerms._insert_connection equals the set of fields taken over from the new connection (decided on field sets, for slice and tuple forms); every contribution to H_bond precedes the Hermitian conjugation under explicit_plus_hc.',
+    'C14': 'A factor norm(S) moved into psi.norm is divided out of S before any further use of S in the same update (NORM-renorm-use).',
+    'C15': 'A relative truncation error is normalised by the norm of the tensor it approximates (TRUNC-eps-reference).',
+    'C16': 'Arithmetic with self.E_shift occurs only in run(), on the returned local: the shift is removed exactly once.',
+    'C17': 'A loader that rebuilds the object through cls(...) loads every saved attribute that all __init__ set to a constant; a loader that delegates to super().from_hdf5 does not re-derive an attribute the super loader restored (HDF5-no-overwrite).',
+    'C18': 'A checkpoint emitted at the start of an iteration is skipped in the first iteration of the call by a flag local to the call, not by restored engine state (RESUME-checkpoint-guard).',
+    'C19': 'The pair tables of DualSquare (toric_code.py) are decided like those of lattice.py (constant folding incl. comprehensions and np.eye).',
+}
+for _k, _v in EXTRA6.items():
+    EXTRA[_k] = (EXTRA.get(_k, '') + ' ' + _v).strip()
